@@ -7,6 +7,7 @@ C15 — dependency-graph construction is exact.   Model: `Model/Dag.lean`; lemma
 All statements are for every graph `g` (any number of nodes, any edges), no size bound.
 -/
 import LeaspyVerif.Lemmas.Dag
+import LeaspyVerif.Lemmas.Specs
 
 namespace LeaspyVerif.C15
 open LeaspyVerif.Dag
@@ -259,5 +260,141 @@ example : (match build (Graph.ofLists [[1], [0]]) with | .error .value => true |
   decide +kernel
 example : (match build (Graph.ofLists [[], [0], []]) with | .error .input => true | _ => false) = true := by
   decide +kernel
+
+/-! ## Part 2 — the collection of definitions (`NamedVariables`): implicit regularity and summary nodes
+
+Model `Model/Specs.lean`.  `collOf ops` is the collection obtained from the empty one by ANY sequence of
+`nv[name] = var` statements (constructor, `update`, item assignment: all go through `__setitem__`), successful or
+refused — a refusal may leave the entries added before it, as in the code.  `definitions c` is what
+`VariablesDAG.from_dict` reads. -/
+section Collection
+open LeaspyVerif.Specs
+
+def collOf (ops : List (String × Def)) : Coll := ops.foldl (fun c o => (setItem c o.1 o.2).1) Coll.empty
+
+private theorem foldl_inv : ∀ (ops : List (String × Def)) (c : Coll), NoDup c → Good c →
+    NoDup (ops.foldl (fun c o => (setItem c o.1 o.2).1) c) ∧ Good (ops.foldl (fun c o => (setItem c o.1 o.2).1) c) ∧
+    (c.entries <+: (ops.foldl (fun c o => (setItem c o.1 o.2).1) c).entries) ∧
+    (∀ z ∈ c.indVars, z ∈ (ops.foldl (fun c o => (setItem c o.1 o.2).1) c).indVars) := by
+  intro ops
+  induction ops with
+  | nil => intro c h hg; exact ⟨h, hg, List.prefix_refl _, fun _ hz => hz⟩
+  | cons o rest ih =>
+    intro c h hg
+    obtain ⟨s1, s2, s3, s4, _⟩ := setItem_spec c o.1 o.2 h hg
+    obtain ⟨b1, b2, b3, b4⟩ := ih _ s1 s2
+    exact ⟨b1, b2, s3.trans b3, fun z hz => b4 z (s4 z hz)⟩
+
+private theorem inv_empty : NoDup Coll.empty ∧ Good Coll.empty :=
+  ⟨⟨List.nodup_nil, fun _ _ => rfl⟩, fun _ hz => by cases hz⟩
+
+/-- **No name is ever defined twice**, and no explicit definition carries the name of an automatic variable: the keys
+    of every reachable collection (explicit names followed by the automatic ones) are pairwise distinct. -/
+theorem collection_keys_unique (ops : List (String × Def)) : (keys (collOf ops)).Nodup := by
+  obtain ⟨⟨h1, h2⟩, _, _, _⟩ := foldl_inv ops _ inv_empty.1 inv_empty.2
+  unfold keys
+  rw [List.nodup_append]
+  refine ⟨h1, by decide, ?_⟩
+  intro a ha b hb hab
+  subst hab
+  have h3 : (collOf ops).has a = false := h2 a hb
+  obtain ⟨e, he, rfl⟩ := List.mem_map.1 ha
+  rw [show (collOf ops).has e.1 = true from has_iff.2 ⟨e, he, rfl⟩] at h3
+  cases h3
+
+/-- **A refused name has no effect**: a reserved word, an automatic name or a name in use leaves the collection
+    exactly as it was (`ValueError`). -/
+theorem collection_refused_name_no_effect (c : Coll) (n : String) (d : Def)
+    (h : n ∈ forbiddenNames ∨ n ∈ automaticNames ∨ c.has n = true) : setItem c n d = (c, false) := by
+  have hr : refusedName c n = true := by
+    unfold refusedName
+    simp only [Bool.or_eq_true, List.contains_eq_mem, decide_eq_true_eq]
+    rcases h with h | h | h
+    · exact Or.inl (Or.inl h)
+    · exact Or.inl (Or.inr h)
+    · exact Or.inr h
+  unfold setItem
+  simp [hr]
+
+/-- **Definitions are never rewritten**: whatever is assigned later (accepted or refused), the explicit definitions
+    given so far stay, in their order, at the front of the collection. -/
+theorem collection_definitions_never_rewritten (ops more : List (String × Def)) :
+    (collOf ops).entries <+: (collOf (ops ++ more)).entries := by
+  obtain ⟨h1, h2, _, _⟩ := foldl_inv ops _ inv_empty.1 inv_empty.2
+  unfold collOf
+  rw [List.foldl_append]
+  exact (foldl_inv more _ h1 h2).2.2.1
+
+/-- **The implicit summary node depends on exactly the per-individual regularity terms of the individual latent variables
+    registered so far** (as a set: the code sorts the set of names) … -/
+theorem collection_sum_exact (c : Coll) (x : String) :
+    (∃ deps, ("nll_regul_ind_sum_ind", deps) ∈ autoDefs c ∧ x ∈ deps) ↔ ∃ z ∈ c.indVars, x = regulIndName z := by
+  unfold autoDefs
+  constructor
+  · rintro ⟨deps, hd, hx⟩
+    simp only [List.mem_cons, Prod.mk.injEq, List.not_mem_nil, or_false] at hd
+    rcases hd with ⟨_, rfl⟩ | ⟨h, _⟩
+    · obtain ⟨z, hz, rfl⟩ := List.mem_map.1 hx
+      exact ⟨z, mem_sortNames.1 hz, rfl⟩
+    · exact absurd h (by decide)
+  · rintro ⟨z, hz, rfl⟩
+    exact ⟨_, by simp, List.mem_map.2 ⟨z, mem_sortNames.2 hz, rfl⟩⟩
+
+/-- … and an individual latent variable is registered as soon as its assignment succeeds — at whatever point of the life
+    of the collection (the automatic variables are not frozen by having been read before). -/
+theorem collection_registers_ind (c : Coll) (n m s : String) (h : (setItem c n (.ind m s)).2 = true) :
+    n ∈ (setItem c n (.ind m s)).1.indVars := by
+  unfold setItem at h ⊢
+  cases hr : refusedName c n with
+  | true => simp [hr] at h
+  | false =>
+    simp only [hr, Bool.false_eq_true, if_false] at h ⊢
+    cases hok : (addPlain (push c (n, ownDeps (.ind m s))) (companions n (.ind m s))).2 with
+    | false => simp [hok] at h
+    | true =>
+      simp only [if_true]
+      exact mem_register_indVars.2 (Or.inr ⟨rfl, m, s, rfl⟩)
+
+/-- **Every registered individual latent variable is wired to the summary nodes**: in the definitions read by the graph
+    construction, `nll_regul_<z>_ind` exists and depends on `z` (and on the two parameters of its prior), `nll_regul_<z>`
+    depends on it, it is a dependency of `nll_regul_ind_sum_ind`, and `nll_regul_ind_sum` depends on that. -/
+theorem collection_ind_chain (ops : List (String × Def)) (z : String) (hz : z ∈ (collOf ops).indVars) :
+    (∃ e ∈ definitions (collOf ops), e.1 = z) ∧
+    (∃ m s, (regulIndName z, [z, m, s]) ∈ definitions (collOf ops)) ∧
+    (regulName z, [regulIndName z]) ∈ definitions (collOf ops) ∧
+    (∃ deps, ("nll_regul_ind_sum_ind", deps) ∈ definitions (collOf ops) ∧ regulIndName z ∈ deps) ∧
+    ("nll_regul_ind_sum", ["nll_regul_ind_sum_ind"]) ∈ definitions (collOf ops) := by
+  obtain ⟨_, hg, _, _⟩ := foldl_inv ops _ inv_empty.1 inv_empty.2
+  obtain ⟨g1, ⟨m, s, g2⟩, g3⟩ := hg z hz
+  obtain ⟨e, he, hez⟩ := has_iff.1 g1
+  unfold definitions
+  refine ⟨⟨e, List.mem_append_left _ he, hez⟩, ⟨m, s, List.mem_append_left _ g2⟩, List.mem_append_left _ g3, ?_, ?_⟩
+  · obtain ⟨deps, hd, hx⟩ := (collection_sum_exact (collOf ops) (regulIndName z)).2 ⟨z, hz, rfl⟩
+    exact ⟨deps, List.mem_append_right _ hd, hx⟩
+  · exact List.mem_append_right _ (by simp [autoDefs])
+
+/-- The scenario of a collection assembled in instalments: an individual latent variable assigned successfully AFTER any
+    history (reads of the automatic variables included — they are not part of the state) is counted by the summary node. -/
+theorem collection_later_ind_var_counted (ops : List (String × Def)) (n m s : String)
+    (h : (setItem (collOf ops) n (.ind m s)).2 = true) :
+    ∃ deps, ("nll_regul_ind_sum_ind", deps) ∈ definitions (collOf (ops ++ [(n, .ind m s)])) ∧ regulIndName n ∈ deps := by
+  have hz : n ∈ (collOf (ops ++ [(n, .ind m s)])).indVars := by
+    unfold collOf
+    rw [List.foldl_append]
+    exact collection_registers_ind _ n m s h
+  exact (collection_ind_chain _ n hz).2.2.2.1
+
+/-! Non-vacuity: `tau` before the parameters of its prior, a refused name in between, a second individual variable later. -/
+private def exOps : List (String × Def) :=
+  [("tau", .ind "tau_mean" "tau_std"), ("tau_mean", .plain), ("state", .plain), ("tau_std", .plain),
+   ("xi", .ind "xi_mean" "xi_std")]
+
+example : (collOf exOps).indVars = ["tau", "xi"] ∧
+    keys (collOf exOps) = ["tau", "nll_regul_tau_ind", "nll_regul_tau", "tau_mean", "tau_std", "xi", "nll_regul_xi_ind",
+      "nll_regul_xi", "nll_regul_ind_sum_ind", "nll_regul_ind_sum"] ∧
+    (autoDefs (collOf exOps)).head? = some ("nll_regul_ind_sum_ind", ["nll_regul_tau_ind", "nll_regul_xi_ind"]) := by
+  refine ⟨?_, ?_, ?_⟩ <;> decide +kernel
+
+end Collection
 
 end LeaspyVerif.C15
